@@ -151,8 +151,8 @@ def F11b(f):
 
 def F11np(f):
     """numpy backend: Object's not_excluded_type looks at array[0] only ([True, 1] vs [1, True])"""
-    if f.get("backend") != "numpy":
-        return False
+    if f.get("backend") != "numpy" or (f.get("kind") == "membership" and set(f.get("types", [])) - {"Object"}):
+        return False          # an order-dependent answer of `array in T` for any T but Object is NOT this finding (guards: see F09np / F03np)
     s = _series(f)
     vals = [v for v in s if v is not None]
     return len({type(v) for v in vals}) > 1
@@ -161,8 +161,8 @@ def F11np(f):
 def F11list(f):
     """python-list backend: guards evaluate element tests with any()/all() and raise (DispatchError) or not
     depending on which element comes first in a column of mixed classes"""
-    if f.get("backend") != "list":
-        return False
+    if f.get("backend") != "list" or f.get("kind") == "membership":
+        return False          # membership on Python lists is proved order independent (props/C11.v); only the guards are covered by this finding
     s = _series(f)
     return len({type(v) for v in s}) > 1
 
